@@ -556,16 +556,17 @@ Qed.
 
 (* one cell is turned into a tombstone; the sweep is requested *)
 Lemma rep_tomb : forall w hw lp a b, Rep w hw lp -> In (a, b) lp ->
-  exists nx h1, BM.find a (cells (hs hw)) = Some (cell_of b nx) /\
+  exists nx, BM.find a (cells (hs hw)) = Some (cell_of b nx) /\
+    let h1 := with_cells (hs hw) (BM.add a (ctomb (cell_of b nx)) (cells (hs hw))) in
     wr (hs hw) a (ctomb (cell_of b nx)) = Ok h1 /\
-    forall it, Rep (set_state (mkS (update_node (b_data b) tombstone (first (ws w))) it true) w)
-                   (hset (set_iter (set_del h1 true) it) hw) (upd_node a tombstone lp) /\
-               Evolves w hw lp (set_state (mkS (update_node (b_data b) tombstone (first (ws w))) it true) w)
-                       (hset (set_iter (set_del h1 true) it) hw) (upd_node a tombstone lp).
+    Rep (set_state (mkS (update_node (b_data b) tombstone (first (ws w))) (is_iter (ws w)) true) w)
+        (hset (set_del h1 true) hw) (upd_node a tombstone lp) /\
+    Evolves w hw lp (set_state (mkS (update_node (b_data b) tombstone (first (ws w))) (is_iter (ws w)) true) w)
+            (hset (set_del h1 true) hw) (upd_node a tombstone lp).
 Proof.
   intros w hw lp a b R Hin.
   destruct (chain_update _ _ _ (rp_chain _ _ _ R) a b tombstone (rp_nodup _ _ _ R) Hin) as (nx & Hf & Hc).
-  exists nx. eexists. split; [exact Hf|]. unfold wr. rewrite Hf. split; [reflexivity|]. intro it.
+  exists nx. split; [exact Hf|]. cbn zeta. unfold wr. rewrite Hf. split; [reflexivity|].
   assert (Ht : ctomb (cell_of b nx) = cell_of (tombstone b) nx) by reflexivity.
   split.
   - constructor; cbn.
@@ -575,7 +576,7 @@ Proof.
     + intros x Hx. rewrite addrs_upd_node. destruct (Pos.eq_dec x a) as [->|Hne]; [eapply in_addrs; eauto|].
       rewrite BM.gso in Hx by auto. exact (rp_exact _ _ _ R x Hx).
     + intros x Hx. rewrite addrs_upd_node in Hx. exact (rp_fresh _ _ _ R x Hx).
-    + reflexivity.
+    + exact (rp_iter _ _ _ R).
     + reflexivity.
     + exact (rp_n _ _ _ R).
     + exact (rp_t _ _ _ R).
@@ -672,4 +673,221 @@ Proof.
         destruct Hd as [Hd|[E|[]]]; [|cbn in E; rewrite <- E; lia]. pose proof (rp_bound _ _ _ R d Hd). lia.
       * lia.
     + apply Hev; [|rewrite Hn2; reflexivity]. intros x y Hp. apply in_app_or in Hp. destruct Hp as [Hp|[E|[]]]; auto.
+Qed.
+
+Lemma rep_destroy_step : forall w hw lp0 a b d0, Rep w hw (lp0 ++ [(a, b)]) ->
+  last (first (ws w)) d0 = b /\
+  exists h1 h2, h_last_slot (walk_fuel (hs hw)) BFirst (hs hw) = Ok (slot_after lp0) /\
+    read_slot (hs hw) (slot_after lp0) = Ok (Some a) /\
+    write_slot (hs hw) (slot_after lp0) None = Ok h1 /\ rd h1 a = Ok (cell_of b None) /\ hfree h1 a = Ok h2 /\
+    Rep (set_state (mkS (removelast (first (ws w))) (is_iter (ws w)) (needs_del (ws w))) w) (hset h2 hw) lp0 /\
+    Evolves w hw (lp0 ++ [(a, b)]) (set_state (mkS (removelast (first (ws w))) (is_iter (ws w)) (needs_del (ws w))) w) (hset h2 hw) lp0.
+Proof.
+  intros w hw lp0 a b d0 R. rewrite (rp_list _ _ _ R), binds_snoc. split; [apply last_snoc|].
+  pose proof (rp_chain _ _ _ R) as Hc. destruct (hchain_split _ _ _ _ Hc) as (k2 & Hs).
+  pose proof (hsplit_tail _ _ _ _ _ Hs) as Ht. inversion Ht as [|a' b' nx lp' Hf Hnil]; subst. inversion Hnil; subst.
+  destruct (nodup_addrs_app _ _ (rp_nodup _ _ _ R)) as (Hnd0 & _ & Hdis).
+  assert (Ha0 : ~ In a (addrs lp0)) by (intro Hi; apply (Hdis a Hi); left; reflexivity).
+  destruct (write_slot_after lp0 (hs hw) _ _ _ None [] Hs eq_refl Hnd0) as (h1 & Hw & Hc1 & Hfr1 & Hdom1 & Hi1 & Hd1 & Hn1);
+    [intros x _ []|constructor|]. rewrite app_nil_r in Hc1.
+  assert (Hf1 : BM.find a (cells h1) = Some (cell_of b None)) by (rewrite Hfr1; auto).
+  exists h1, (with_cells h1 (BM.remove a (cells h1))).
+  split; [|split; [|split; [|split; [|split]]]].
+  - unfold slot_after. apply (last_slot_spec (hs hw) lp0 _ a b Hc); [|reflexivity].
+    pose proof (rep_fuel _ _ _ R) as Hfu. rewrite app_length in Hfu. cbn in Hfu. lia.
+  - eapply hsplit_read_slot; eauto.
+  - exact Hw.
+  - unfold rd. rewrite Hf1. reflexivity.
+  - unfold hfree. rewrite Hf1. reflexivity.
+  - split.
+    + constructor; cbn.
+      * rewrite removelast_last. reflexivity.
+      * eapply hchain_ext; [exact Hc1|]. intros x Hx. apply BM.gro. intro; subst; contradiction.
+      * exact Hnd0.
+      * intros x Hx. destruct (Pos.eq_dec x a) as [->|Hne]; [rewrite BM.grs in Hx; contradiction|].
+        rewrite BM.gro in Hx by auto.
+        assert (Hin : In x (addrs (lp0 ++ [(a, b)]))).
+        { apply (rp_exact _ _ _ R). intro Hnone. apply Hx. apply Hdom1. exact Hnone. }
+        apply in_addrs_app in Hin. destruct Hin as [Hin|[E|[]]]; [exact Hin|]. cbn in E. congruence.
+      * intros x Hx. rewrite Hn1. apply (rp_fresh _ _ _ R). apply in_addrs_app. auto.
+      * rewrite Hi1. exact (rp_iter _ _ _ R).
+      * rewrite Hd1. exact (rp_del _ _ _ R).
+      * exact (rp_n _ _ _ R).
+      * exact (rp_t _ _ _ R).
+      * pose proof (rp_names _ _ _ R) as Hnn. rewrite binds_snoc in Hnn. unfold names in Hnn. rewrite map_app in Hnn.
+        apply nodup_app_inv in Hnn. tauto.
+      * intros d Hd. apply (rp_bound _ _ _ R). rewrite binds_snoc. unfold names. rewrite map_app. apply in_or_app. auto.
+      * exact (rp_wn _ _ _ R).
+    + constructor; cbn; [lia|rewrite Hn1; lia|]. intros x y Hp. left. exists y. split; [apply in_or_app; auto|reflexivity].
+Qed.
+
+(* ---- lockstep ---- *)
+Definition trel (w : world) (hw : hworld) (lp : list node) (t : task) (t' : htask) : Prop :=
+  match t, t' with
+  | KCall fn n fl, HCall fn' n' fl' => fn = fn' /\ n = n' /\ fl = fl'
+  | KActs a, HActs a' => a = a'
+  | KAct a, HAct a' => a = a'
+  | KLoop wf ev cur, HLoop wf' ev' cur' => wf = wf' /\ ev = ev' /\ crel w hw lp cur cur'
+  | KDestroy, HDestroy => True
+  | _, _ => False
+  end.
+
+Definition rres (w : world) (hw : hworld) (lp : list node) (r : res (world * Z)) (r' : res (hworld * Z)) : Prop :=
+  match r, r' with
+  | Ok (w', v), Ok (hw', v') => v = v' /\ exists lp', Rep w' hw' lp' /\ Evolves w hw lp w' hw' lp'
+  | Fault, Fault => True
+  | OutOfFuel, OutOfFuel => True
+  | _, _ => False
+  end.
+
+Section Sim.
+Variable env : env_t.
+
+Definition Sim (fuel : nat) : Prop := forall t t' w hw lp,
+  Rep w hw lp -> trel w hw lp t t' -> rres w hw lp (exec fixed env fuel t w) (hexec env fuel t' hw).
+
+Lemma rres_evolves : forall w hw lp w1 hw1 lp1 r r',
+  Evolves w hw lp w1 hw1 lp1 -> rres w1 hw1 lp1 r r' -> rres w hw lp r r'.
+Proof.
+  intros w hw lp w1 hw1 lp1 r r' E H. destruct r as [[w' v]| |], r' as [[hw' v']| |]; cbn in *; auto.
+  destruct H as [Hv (lp' & R' & E')]. split; [exact Hv|]. exists lp'. split; [exact R'|]. eapply evolves_trans; eauto.
+Qed.
+
+(* a world with one more trace event *)
+Lemma rep_log : forall w hw lp e, Rep w hw lp -> Rep (log e w) (hlog e hw) lp.
+Proof. intros w hw lp e R. destruct R. constructor; cbn; auto. congruence. Qed.
+Lemma evolves_log : forall w hw lp e, Evolves w hw lp (log e w) (hlog e hw) lp.
+Proof. intros. constructor; cbn; [lia|lia|]. intros a b H. left. eauto. Qed.
+Lemma rep_begin : forall w hw lp, Rep w hw lp ->
+  Rep (set_state (begin_iteration (ws w)) w) (hset (h_begin_iteration (hs hw)) hw) lp.
+Proof. intros w hw lp R. destruct R. constructor; cbn; auto. Qed.
+Lemma evolves_same : forall w hw lp w' hw', wn w' = wn w -> hfresh (hs hw') = hfresh (hs hw) -> Evolves w hw lp w' hw' lp.
+Proof. intros. constructor; [lia|lia|]. intros a b Hp. left. eauto. Qed.
+
+Lemma find_node_none : forall d l, ~ In d (names l) -> find_node d l = None.
+Proof.
+  intros d l H. unfold find_node. destruct (find (fun x => b_data x =? d) l) as [b|] eqn:E; [|reflexivity].
+  apply find_some in E. destruct E as [Hin Hd]. apply Z.eqb_eq in Hd. exfalso. apply H. subst d. apply in_map. exact Hin.
+Qed.
+Lemma next_of_none : forall d l, ~ In d (names l) -> next_of d l = None.
+Proof.
+  induction l as [|b l IH]; intros H; cbn; [reflexivity|].
+  destruct (Z.eqb_spec (b_data b) d) as [E|_]; [exfalso; apply H; left; exact E|]. apply IH. intro Hi. apply H. right. exact Hi.
+Qed.
+Lemma crel_next : forall w hw lp lp2, (forall p, In p lp2 -> In p lp) ->
+  crel w hw lp (head_name (binds lp2)) (option_map fst (hd_error lp2)).
+Proof.
+  intros w hw lp lp2 Hsub. destruct lp2 as [|[a2 b2] lp2]; cbn; [exact I|]. left. exists b2. split; [apply Hsub; left|]; reflexivity.
+Qed.
+Lemma crel_head : forall w hw lp, Rep w hw lp -> crel w hw lp (head_name (first (ws w))) (hfirst (hs hw)).
+Proof.
+  intros w hw lp R. rewrite (rp_list _ _ _ R). pose proof (rp_chain _ _ _ R) as Hc.
+  inversion Hc as [|a b nx lp' Hf Hc' Hk Hl]; cbn; [exact I|]. left. exists b. split; [left|]; reflexivity.
+Qed.
+Lemma rep_eta : forall w hw lp, Rep w hw lp -> Rep (set_state (ws w) w) (hset (hs hw) hw) lp.
+Proof. intros w hw lp R. destruct R. constructor; cbn; auto. Qed.
+
+Lemma end_sim : forall w hw lp was e v, Rep w hw lp ->
+  rres w hw lp (Ok (log e (set_state (end_iteration was (ws w)) w), v))
+               (rbind (h_end_iteration was (hs hw)) (fun h3 => Ok (hlog e (hset h3 hw), v))).
+Proof.
+  intros w hw lp was e v R. destruct (rep_end_iteration w hw lp was R) as (h3 & lp' & He & R' & E'). rewrite He. cbn.
+  split; [reflexivity|]. exists lp'. split; [apply rep_log; exact R'|].
+  eapply evolves_trans; [exact E'|apply evolves_log].
+Qed.
+
+Ltac use_ih H :=
+  match type of H with
+  | rres _ _ _ ?r ?r' => destruct r as [[?w2 ?v2]| |], r' as [[?hw2 ?v2']| |]; cbn [rres] in H; cbn [rbind];
+                         try contradiction; try exact I
+  end.
+
+Lemma sim_call : forall f, Sim f -> forall fn n fl w hw lp, Rep w hw lp ->
+  rres w hw lp (exec fixed env (S f) (KCall fn n fl) w) (hexec env (S f) (HCall fn n fl) hw).
+Proof.
+  intros f IH fn n fl w hw lp R. cbn [exec hexec]. destruct fn as [hid|]; [|exact I].
+  rewrite (rp_t _ _ _ R). destruct (env (wt w) hid n fl) as [acts ret].
+  pose proof (IH (KActs acts) (HActs acts) w hw lp R eq_refl) as H. use_ih H.
+  destruct H as [_ (lp' & R' & E')]. cbn [rres]. split; [reflexivity|]. exists lp'. split; [apply rep_log; exact R'|].
+  eapply evolves_trans; [exact E'|apply evolves_log].
+Qed.
+
+Lemma sim_acts : forall f, Sim f -> forall acts w hw lp, Rep w hw lp ->
+  rres w hw lp (exec fixed env (S f) (KActs acts) w) (hexec env (S f) (HActs acts) hw).
+Proof.
+  intros f IH acts w hw lp R. cbn [exec hexec]. destruct acts as [|a rest].
+  - cbn. split; [reflexivity|]. exists lp. split; [exact R|apply evolves_refl].
+  - pose proof (IH (KAct a) (HAct a) w hw lp R eq_refl) as H. use_ih H.
+    destruct H as [_ (lp' & R' & E')]. eapply rres_evolves; [exact E'|]. apply IH; [exact R'|reflexivity].
+Qed.
+
+Lemma sim_bind : forall f ev flags hid w hw lp, Rep w hw lp ->
+  rres w hw lp (exec fixed env (S f) (KAct (ABind ev flags hid)) w) (hexec env (S f) (HAct (ABind ev flags hid)) hw).
+Proof.
+  intros f ev flags hid w hw lp R. cbn [exec hexec]. unfold bind_event. rewrite (rp_n _ _ _ R).
+  set (name := if has flags BIND_FIRST then - wn w else wn w).
+  destruct (rep_bind w hw lp ev flags (Some hid)
+              (TBind name ev flags hid (max_id (first (ws w)) + 1)) R) as (h1 & lp' & Hb & R' & E').
+  fold name in Hb. rewrite Hb. cbn [rbind]. rewrite (rp_t _ _ _ R) in *. rewrite (rp_n _ _ _ R) in *.
+  cbn. split; [reflexivity|]. exists lp'. split; [exact R'|exact E'].
+Qed.
+
+Lemma sim_emit : forall f, Sim f -> forall (wf : bool) ev w hw lp, Rep w hw lp ->
+  rres w hw lp (exec fixed env (S f) (KAct (if wf then AEmitWF ev else AEmit ev)) w)
+               (hexec env (S f) (HAct (if wf then AEmitWF ev else AEmit ev)) hw).
+Proof.
+  intros f IH wf ev w hw lp R.
+  set (w1 := log (TEmitB wf ev) (set_state (begin_iteration (ws w)) w)).
+  set (hw1 := hlog (TEmitB wf ev) (hset (h_begin_iteration (hs hw)) hw)).
+  assert (R1 : Rep w1 hw1 lp) by (apply rep_log, rep_begin; exact R).
+  assert (E1 : Evolves w hw lp w1 hw1 lp) by (apply evolves_same; reflexivity).
+  pose proof (IH (KLoop wf ev (head_name (first (ws w1)))) (HLoop wf ev (hfirst (hs hw1))) w1 hw1 lp R1
+                 (conj eq_refl (conj eq_refl (crel_head _ _ _ R1)))) as H.
+  destruct wf; cbn [exec hexec]; fold w1 hw1; rewrite (rp_iter _ _ _ R); use_ih H;
+    destruct H as [Hv (lp' & R' & E')]; subst; (eapply rres_evolves; [eapply evolves_trans; [exact E1|exact E']|]);
+    apply end_sim; exact R'.
+Qed.
+
+Lemma sim_destroy_act : forall f, Sim f -> forall w hw lp, Rep w hw lp ->
+  rres w hw lp (exec fixed env (S f) (KAct ADestroy) w) (hexec env (S f) (HAct ADestroy) hw).
+Proof.
+  intros f IH w hw lp R. cbn [exec hexec].
+  pose proof (IH KDestroy HDestroy (log TDestroyB w) (hlog TDestroyB hw) lp (rep_log _ _ _ _ R) I) as H. use_ih H.
+  destruct H as [_ (lp' & R' & E')]. cbn [rres]. split; [reflexivity|]. exists lp'. split; [apply rep_log; exact R'|].
+  eapply evolves_trans; [apply evolves_log|]. eapply evolves_trans; [exact E'|apply evolves_log].
+Qed.
+
+Lemma sim_unbind : forall f, Sim f -> forall id w hw lp, Rep w hw lp ->
+  rres w hw lp (exec fixed env (S f) (KAct (AUnbind id)) w) (hexec env (S f) (HAct (AUnbind id)) hw).
+Proof.
+  intros f IH id w hw lp R. cbn [exec hexec].
+  set (w0 := log (TUnbindB id) w). set (hw0 := hlog (TUnbindB id) hw).
+  assert (R0 : Rep w0 hw0 lp) by (apply rep_log; exact R).
+  assert (E0 : Evolves w hw lp w0 hw0 lp) by apply evolves_log.
+  eapply rres_evolves; [exact E0|].
+  rewrite (find_id_spec _ _ _ (rp_chain _ _ _ R0) _ id (rep_fuel _ _ _ R0)). cbn [rbind].
+  rewrite (rp_list _ _ _ R0), find_id_binds.
+  destruct (find (has_id id) lp) as [[a b]|] eqn:Efind; cbn [option_map fst snd].
+  2:{ cbn [rres]. split; [reflexivity|]. exists lp. split; [apply rep_log; exact R0|apply evolves_log]. }
+  pose proof (find_in _ _ _ _ Efind) as Hin.
+  destruct (rep_tomb w0 hw0 lp a b R0 Hin) as (nx & Hf & Hwr & R1 & E1). cbn zeta in Hwr, R1, E1.
+  unfold rd. rewrite Hf. cbn [rbind cell_of c_fn c_data c_flags]. rewrite Hwr. cbn [rbind].
+  rewrite <- (rp_list _ _ _ R0).
+  set (h1 := with_cells (hs hw0) (BM.add a (ctomb (cell_of b nx)) (cells (hs hw0)))) in *.
+  set (s1 := mkS (update_node (b_data b) tombstone (first (ws w0))) (is_iter (ws w0)) true) in *.
+  change (hiter (set_del h1 true)) with (hiter (hs hw0)). rewrite (rp_iter _ _ _ R0).
+  change (is_iter s1) with (is_iter (ws w0)).
+  set (w1 := set_state (begin_iteration s1) w0). set (hw1 := hset (h_begin_iteration (set_del h1 true)) hw0).
+  assert (R1b : Rep w1 hw1 (upd_node a tombstone lp)).
+  { pose proof (rep_begin _ _ _ R1) as Hb. exact Hb. }
+  assert (E1b : Evolves w0 hw0 lp w1 hw1 (upd_node a tombstone lp)).
+  { eapply evolves_trans; [exact E1|]. apply evolves_same; reflexivity. }
+  eapply rres_evolves; [exact E1b|].
+  destruct (has (b_flags b) BIND_UNBIND).
+  - pose proof (IH (KCall (b_fn b) (b_data b) EV_UNBIND) (HCall (b_fn b) (b_data b) EV_UNBIND)
+                   (log (TCallB (b_data b) EV_UNBIND) w1) (hlog (TCallB (b_data b) EV_UNBIND) hw1) _
+                   (rep_log _ _ _ _ R1b) (conj eq_refl (conj eq_refl eq_refl))) as H.
+    use_ih H. destruct H as [_ (lp2 & R2 & E2)].
+    eapply rres_evolves; [eapply evolves_trans; [apply evolves_log|exact E2]|]. apply end_sim. exact R2.
+  - cbn [rbind]. apply end_sim. exact R1b.
 Qed.
